@@ -303,7 +303,7 @@ def consistent(ctx):
 def uniq(ctx):
     repo = ctx.repo
     r = ctx.rule('C11-UNIQ', 'uniqueness check: null predicate and duplicate map', floor=10, oracle='property statement')
-    fn = repo.func(Q + 'check_uniqueness_constraint')
+    fn = repo.nfunc(Q + 'check_uniqueness_constraint')       # normal form: helpers inlined, loops that fill a dict are comprehensions
     QQ = Q + 'check_uniqueness_constraint'
     # locate the attribute loop (null test)
     attr_loop = None
@@ -316,7 +316,7 @@ def uniq(ctx):
             ident_loops.append(lp)
         elif pm.match('_M.select_many()', lp.iter) is not None or pm.match('_M.storage', lp.iter) is not None:
             inst_loop = lp
-    if attr_loop is None or inst_loop is None or len(ident_loops) < 2:
+    if attr_loop is None or inst_loop is None or len(ident_loops) < 1:
         raise AnalysisError('%s: loops of check_uniqueness_constraint not recognised' % loc(fn))
     nm, ty = [e.id for e in attr_loop.target.elts]
     counter = None
@@ -336,6 +336,8 @@ def uniq(ctx):
     def v_of(e, s):
         x = e['_X']
         if isinstance(x, ast.Name) and x.id in valvar:
+            return s['value']
+        if pm.match('getattr(_I, %s)' % nm, x) is not None:
             return s['value']
         return None
 
@@ -366,11 +368,14 @@ def uniq(ctx):
     atoms = [('%s not in _M.identifying_attributes' % nm, lambda e, s, tr: not s['identifying']),
              ('%s in _M.identifying_attributes' % nm, lambda e, s, tr: s['identifying']),
              ('_X is None', lambda e, s, tr: (v_of(e, s) == 'none') if v_of(e, s) else None),
+             ('_X is not None', lambda e, s, tr: (v_of(e, s) != 'none') if v_of(e, s) else None),
+             ('_X != 0', lambda e, s, tr: (v_of(e, s) != 'zero') if v_of(e, s) else None),
+             ('_A != _B', lambda e, s, tr: (None if ty_cmp(e, s, tr) is None else not ty_cmp(e, s, tr))),
              ('not _X', lambda e, s, tr: (v_of(e, s) in ('none', 'zero')) if v_of(e, s) else None),
              ('_X == 0', lambda e, s, tr: (v_of(e, s) == 'zero') if v_of(e, s) else None),
              ('_A == _B', ty_cmp),
              ('_X', lambda e, s, tr: (v_of(e, s) == 'nonzero') if v_of(e, s) else None)]
-    effects = [('_N = _V', val_assign), ('_N = _V', ty_norm), ('%s += 1' % counter, inc)]
+    effects = [('_N = _V', val_assign), ('_N = _V', ty_norm), ('_C += 1', inc)]
     it = absint.Interp(fn, atoms, effects)
     for identifying, value, tyname in itertools.product([True, False], ['none', 'zero', 'nonzero'],
                                                         ['UNIQUE_ID', 'unique_id', 'Unique_Id', 'INTEGER', 'STRING']):
@@ -387,43 +392,119 @@ def uniq(ctx):
                 msg='%s must count %d null identifying value(s); the code counts %d -- the type name is compared without '
                     'case normalisation' % (desc, want, got) if tyname.upper() == 'UNIQUE_ID' and value == 'zero'
                 else '%s must count %d; the code counts %d' % (desc, want, got))
-    # duplicate map: structural
-    dup_loop = [lp for lp in ident_loops if any(isinstance(n, ast.AugAssign) for n in ast.walk(lp))]
-    init_loop = [lp for lp in ident_loops if lp not in dup_loop]
-    if len(dup_loop) != 1 or not init_loop:
-        raise AnalysisError('%s: duplicate-map loops not recognised' % loc(fn))
-    dl = dup_loop[0]
-    iv = dl.target.id
-    # per metaclass re-initialisation: the map is created inside the metaclass loop
-    mc_loop = inst_loop._parent
-    r.check(isinstance(mc_loop, ast.For) and any(pm.match('_D = dict()', st) is not None or pm.match('_D = {}', st) is not None
-                                                  for st in mc_loop.body),
-            'identifier map is created per metaclass', dl, construct=QQ, key='map-per-class',
-            msg='the duplicate map is not re-created for each metaclass')
-    inner = [lp for lp in dl.body if isinstance(lp, ast.For)]
-    ok_key = False
-    for lp in inner:
-        if pm.match('_M.indices[%s]' % iv, lp.iter) is not None:
-            av = lp.target.id
-            if pm.match(['_K[%s] = getattr(_I, %s)' % (av, av)], lp.body) is not None:
-                ok_key = True
-    r.check(ok_key, 'the key ranges over all attributes of the identifier with the instance\'s values', dl, construct=QQ,
-            key='dup-key', msg='the duplicate key is not built from getattr(inst, name) for every name in indices[identifier]')
-    tests = [st for st in dl.body if isinstance(st, ast.If)]
-    hit = False
-    for t in tests:
-        m = pm.match('_K in _D[%s]' % iv, t.test)
-        if m and any(pm.match('%s += 1' % counter, st) is not None for st in t.body):
-            hit = True
-            store = [st for st in dl.body if pm.match('_D[%s][_K2] = _I' % iv, st) is not None]
-            r.check(bool(store), 'every instance\'s key is recorded after the test', dl, construct=QQ, key='dup-store',
-                    msg='the instance key is not recorded unconditionally after the duplicate test')
-    r.check(hit, 'a repeated key increments the result once', dl, construct=QQ, key='dup-test',
-            msg='the duplicate test `key in map[identifier]` with `%s += 1` is missing' % counter)
+    # duplicate map: abstract execution of the whole function on two tiny models
+    import re as _re
+    KP = param_names(fn)[1]
+    M = param_names(fn)[0]
+
+    def sym(n):
+        return absint.Sym(ast.Name(id=n, ctx=ast.Load()))
+
+    def generalise(e):
+        return _re.sub(r'\b(I|MC)\d\b', r'\1', src(e))
+
+    def run_model(classes, dup):
+        '''classes: {metaclass: [instances]}; all instances carry equal identifier values when dup, distinct ones otherwise'''
+        def mcs(e, s, tr):
+            return [sym(c) for c in sorted(classes)]
+
+        def insts(e, s, tr):
+            c = src(e['_M'])
+            return [sym(i) for i in classes.get(c, [])] if c in classes else None
+
+        def idents(e, s, tr):
+            return [sym('ID')] if src(e['_M']) in classes else None
+
+        def id_attrs(e, s, tr):
+            return [sym('a1'), sym('a2')] if src(e['_M']) in classes else None
+
+        def no_attrs(e, s, tr):
+            return [] if src(e['_M']) in classes else None
+
+        def new_map(e, s, tr):
+            v = e['_V']
+            def empty(x):
+                return (isinstance(x, ast.Dict) and not x.keys) or (isinstance(x, ast.Call) and isinstance(x.func, ast.Name) and
+                                                                    x.func.id == 'dict' and not x.args and not x.keywords)
+            fresh = empty(v) or (isinstance(v, ast.DictComp) and empty(v.value))
+            if not fresh:
+                return False
+            s.setdefault('maps', {})[e['_D'].id] = []
+            return True
+
+        def init_slot(e, s, tr):
+            return isinstance(e['_D'], ast.Name) and e['_D'].id in s.get('maps', {})
+
+        def store(e, s, tr):
+            d = e['_D']
+            if not (isinstance(d, ast.Name) and d.id in s.get('maps', {})):
+                return False
+            s['maps'][d.id].append((src(e['_ID']), generalise(e['_K']), src(e['_I'])))
+            tr.append(('key', generalise(e['_K'])))
+            return True
+
+        def seen(e, s, tr):
+            d = e['_D']
+            if not (isinstance(d, ast.Name) and d.id in s.get('maps', {})):
+                return None
+            k = generalise(e['_K'])
+            tr.append(('probe', k))
+            return dup and any(sid == src(e['_ID']) and sk == k for sid, sk, si in s['maps'][d.id])
+
+        def inc(e, s, tr):
+            s.setdefault('counters', {})[e['_C'].id] = s.get('counters', {}).get(e['_C'].id, 0) + 1
+            return True
+
+        def zero(e, s, tr):
+            if isinstance(e['_V'], ast.Constant) and e['_V'].value == 0 and not isinstance(e['_V'].value, bool):
+                s.setdefault('counters', {})[e['_C'].id] = 0
+                return True
+            return False
+
+        def addc(e, s, tr):
+            x = e['_X']
+            if isinstance(x, ast.Name) and x.id in s.get('counters', {}) and isinstance(e['_C'], ast.Name):
+                s['counters'][e['_C'].id] = s['counters'].get(e['_C'].id, 0) + s['counters'][x.id]
+                return True
+            return False
+        it2 = absint.Interp(fn, [('%s is None' % KP, lambda e, s, tr: True), ('_K in _D[_ID]', seen),
+                                 ('_K not in _D[_ID]', lambda e, s, tr: (None if seen(e, s, tr) is None else not seen(e, s, tr)))],
+                            [('_D = _V', new_map), ('_D[_X] = {}', init_slot), ('_D[_X] = dict()', init_slot),
+                             ('_D[_ID][_K] = _I', store), ('_C = _V', zero), ('_C += 1', inc), ('_C += _X', addc)],
+                            iters=[('%s.metaclasses.values()' % M, mcs), ('_M.select_many()', insts), ('_M.storage', insts),
+                                   ('_M.indices', idents), ('_M.indices.keys()', idents), ('_M.indices[_ID]', id_attrs),
+                                   ('_M.attributes', no_attrs)])
+        it2.pure_calls = {'pretty_unique_identifier', 'frozenset'}
+        state = {}
+        out, tr = it2.run(state)
+        total = state.get('counters', {}).get(out.value.id) if (out.kind == 'return' and isinstance(out.value, ast.Name)) else None
+        return total, out, tr
+    key_shape = None
+    for classes, dup, want, what in (({'MC1': ['I1', 'I2']}, True, 1, 'two instances of one class with equal identifier values'),
+                                     ({'MC1': ['I1', 'I2']}, False, 0, 'two instances of one class with different identifier values'),
+                                     ({'MC1': ['I1'], 'MC2': ['I2']}, True, 0, 'instances of two classes with equal identifier values'),
+                                     ({'MC1': ['I1', 'I2', 'I3']}, True, 2, 'three instances of one class with equal identifier values')):
+        got, out, tr = run_model(classes, dup)
+        r.check(got == want, '%s: %d violation(s)' % (what, want), fn, construct=QQ, key='dup %s' % what,
+                msg='%s must count %d uniqueness violation(s); the code counts %d (the identifier map must be kept per class and every '
+                    'instance key must be recorded after its test)' % (what, want, got))
+        keys_ = set(t[1] for t in tr if t[0] in ('key', 'probe'))
+        if keys_:
+            key_shape = keys_
+    # the key covers every attribute of the identifier with the values of the instance
+    ok_key = bool(key_shape) and len(key_shape) == 1
+    if ok_key:
+        k = ast.parse(next(iter(key_shape))).body[0].value
+        ok_key = pm.contains('{_N: getattr(I, _N) for _N in MC.indices[ID]}', k) or pm.contains('dict(((_N, getattr(I, _N)) for _N in MC.indices[ID]))', k)
+    r.check(ok_key, 'the key ranges over all attributes of the identifier with the instance\'s values; probe and record use the same key', fn,
+            construct=QQ, key='dup-key', msg='the duplicate key is not built from getattr(inst, name) for every name in indices[identifier] '
+                                             '(key expressions: %s)' % sorted(key_shape or []))
     # the restriction to one kind
     kp = param_names(fn)[1]
     ok = False
     for node, env in pm.find('if %s is None:\n    _V = _M.metaclasses.values()\nelse:\n    _V = [_M.find_metaclass(%s)]' % (kp, kp), fn):
+        ok = True
+    for node, env in pm.find('if %s is not None:\n    _V = [_M.find_metaclass(%s)]\nelse:\n    _V = _M.metaclasses.values()' % (kp, kp), fn):
         ok = True
     r.check(ok, 'restriction: all metaclasses when no kind is given, exactly the named one otherwise', fn, construct=QQ,
             key='kind-filter', msg='the kind restriction is not `all metaclasses if kind is None else [find_metaclass(kind)]`')
